@@ -637,6 +637,8 @@ def model_matches(mod, c):
     the step where the property is already violated)."""
     if hasattr(mod, "matches"):
         return mod.matches(c)
+    if c.model == "panic" and (c.impl or "").startswith("panic"):
+        return True       # the Go panic message is never compared
     return c.model == c.impl
 
 
